@@ -842,6 +842,23 @@ func Send[T any](ch chan<- T, v T) {
 	ch <- v
 }
 
+// TrySend is the non-blocking send idiom `select { case ch <- v: default: }`: one scheduling point, then the real
+// non-blocking send (which panics on a closed channel exactly as the original statement does).
+func TrySend[T any](ch chan<- T, v T) bool {
+	if isKilling() {
+		return false
+	}
+	if Active() {
+		call(request{kind: opYield})
+	}
+	select {
+	case ch <- v:
+		return true
+	default:
+		return false
+	}
+}
+
 func Close[T any](ch chan T) {
 	if isKilling() {
 		return
